@@ -55,9 +55,9 @@ int g_cur, g_lev;				/* slot / level of the running real ind_punch loop */
  * snapshot in CHECKs).  v / v0 = value of the ghost slot of the level-j array after / before; [s, e) the range
  * relative to that array. */
 #define REL_OK(O, v0)	((v0) != g_Bstar || g_relB)
-#define FR0(O)		(g_dv0 == O(g_dv0) && g_wr0 == O(g_wr0))
-#define FR1(O)		(FR0(O) && g_dv1 == O(g_dv1) && g_wr1 == O(g_wr1))
-#define FR2(O)		(FR1(O) && g_dv2 == O(g_dv2) && g_wr2 == O(g_wr2))
+#define FR0(O)		(g_dv0 == O(g_dv0) && g_wr0 == O(g_wr0) && g_az0 == O(g_az0))
+#define FR1(O)		(FR0(O) && g_dv1 == O(g_dv1) && g_wr1 == O(g_wr1) && g_az1 == O(g_az1))
+#define FR2(O)		(FR1(O) && g_dv2 == O(g_dv2) && g_wr2 == O(g_wr2) && g_az2 == O(g_az2))
 /* nothing on the path strictly below a level-l array changed */
 #define FRBELOW(O, l)	((l) <= 0 ? 1 : (l) == 1 ? FR0(O) : (l) == 2 ? FR1(O) : FR2(O))
 
@@ -86,14 +86,17 @@ int g_cur, g_lev;				/* slot / level of the running real ind_punch loop */
 #define SPECL(O, l, v, v0, s, e) \
 	((l) == 0 ? SPEC0(O, v, v0, s, e) : (l) == 1 ? SPEC1(O, v, v0, s, e) : \
 	 (l) == 2 ? SPEC2(O, v, v0, s, e) : SPEC3(O, v, v0, s, e))
-/* on an error return: a slot the range does not meet is untouched with everything below it */
+/* on an error return: a slot the range does not meet is untouched, and the path below the slot is untouched unless
+ * the slot is met AND is the one that leads down the ghost path */
+#define G_PB(j) ((j) == 0 ? g_PB0 : (j) == 1 ? g_PB1 : g_PB2)
 #define ERRSPEC(O, l, v, v0, s, e) \
-	(C09_HIT(l, G_K(l), v0, s, e) || ((v) == (v0) && FRBELOW(O, l)))
+	((C09_HIT(l, G_K(l), v0, s, e) || (v) == (v0)) && \
+	 ((C09_HIT(l, G_K(l), v0, s, e) && (l) > 0 && (v0) == G_PB((l) - 1)) || FRBELOW(O, l)))
 /* ghost state of levels the call cannot reach (a level-l call writes arrays of level < l only) */
 #define UNREACHED(O, l) \
-	(((l) > 0 || (g_dv0 == O(g_dv0) && g_wr0 == O(g_wr0))) && \
-	 ((l) > 1 || (g_dv1 == O(g_dv1) && g_wr1 == O(g_wr1))) && \
-	 ((l) > 2 || (g_dv2 == O(g_dv2) && g_wr2 == O(g_wr2))))
+	(((l) > 0 || (g_dv0 == O(g_dv0) && g_wr0 == O(g_wr0) && g_az0 == O(g_az0))) && \
+	 ((l) > 1 || (g_dv1 == O(g_dv1) && g_wr1 == O(g_wr1) && g_az1 == O(g_az1))) && \
+	 ((l) > 2 || (g_dv2 == O(g_dv2) && g_wr2 == O(g_wr2) && g_az2 == O(g_az2))))
 
 #include "config.h"
 #include "ext2_fs.h"
